@@ -313,6 +313,33 @@ func C06Child(args []string) int {
 		}
 	case "hostile":
 		r := core.Rand(seed, "C06", "hostile", itoa(shard))
+		if shard == 0 {
+			// Unicode sweep: every code point of Latin-1 Supplement .. Latin Extended-B, Greek, Cyrillic, Hebrew and a few
+			// Arabic / CJK / 4-byte ones is placed at the same position of two sibling strings (and of a third with one more
+			// segment); the siblings meet in the ring of recent values, so BOTH operands carry the same non-ASCII letter where
+			// they start to differ. Byte-wise classifiers that disagree on one continuation byte spin or index there.
+			var cps []rune
+			for c := rune(0x00A0); c <= 0x024F; c++ {
+				cps = append(cps, c)
+			}
+			for _, rg := range [][2]rune{{0x0386, 0x03CE}, {0x0400, 0x045F}, {0x05D0, 0x05EA}, {0x0621, 0x064A}, {0x3041, 0x3096}} {
+				for c := rg[0]; c <= rg[1]; c++ {
+					cps = append(cps, c)
+				}
+			}
+			cps = append(cps, 0x8A9E, 0x672C, 0x65E5, 0x4E2D, 0x1F600, 0x10400, 0x2028, 0x200B, 0xFEFF, 0xFFFD, 0x0301)
+			for _, cp := range cps {
+				ch := string(cp)
+				for _, b := range []string{"1.0-b", "2.1.", "3.0~men", "1"} {
+					st.callAll(b+ch+"ta1", true)
+					st.callAll(b+ch+"ta2", true)
+					st.callAll(b+ch+".1", true)
+					st.callAll(b+ch, true)
+					st.callAll("<"+b+ch+".1", true)
+				}
+				st.counters["unicode_sweep_code_points"]++
+			}
+		}
 		n := 6000
 		if tier == "thorough" {
 			n = 250000
